@@ -54,7 +54,14 @@ pub fn run(args: &Args) {
         "(L (nossr (dtext 0) (text 97)) (el 109 (A (99 (d 0))) (C)))",
         "(L (el 100 (A) (C (text 97) (nossr (dview 0 (alt (text 120)) (alt (el 98 (A) (C))))) (dtext 1))))",
     ] } else { vec![] };
-    for f in fam_ns.iter().chain(fam_k.iter()).chain(fam_nh.iter()).chain(fam.iter()) {
+    // cleanups of the page that write displayed state: they run when the render scope is torn down, which must be AFTER
+    // the server has serialised the view (and on the client not before the root goes away)
+    let fam_cl: Vec<&str> = vec![
+        "(L (oncleanup 0 2) (el 100 (A) (C (dview 0 (alt (el 97 (A) (C))) (alt (el 98 (A) (C (dtext 1)))) (alt (text 120))) (dtext 0))))",
+        "(L (el 100 (A (99 (d 0))) (C (dtext 0))) (oncleanup 0 1) (oncleanup 1 3) (dview 1 (alt (el 97 (A) (C))) (alt (el 98 (A) (C)))))",
+        "(L (el 112 (A (104 (b 0))) (C (dtext 0) (el 98 (A) (C (dtext 1))))) (oncleanup 0 6) (oncleanup 1 0))",
+    ];
+    for f in fam_cl.iter().chain(fam_ns.iter()).chain(fam_k.iter()).chain(fam_nh.iter()).chain(fam.iter()) {
         let Some(Sx::L(l)) = sx_parse(f) else { continue };
         let vds: Vec<VD> = l[1..].iter().map(|s| rd(s).unwrap()).collect();
         for (st, ws) in [(vec![0u32, 0], "0=1,1=1,0=2,1=2"), (vec![1, 1], "1=2,0=0,0=1,1=3"), (vec![3, 2], "0=3,0=4,1=5"), (vec![4, 1], "0=5,0=2,1=2,0=0")] { push(&vds, &st, ws); }
@@ -67,6 +74,9 @@ pub fn run(args: &Args) {
         let k = 1 + rng.below(2);
         let mut vds: Vec<VD> = (0..k).map(|_| gen(&mut rng, 3, nsig, &mut budget)).collect();
         if !with_show { fn strip(v: &mut VD) { match v { VD::Show(_, cs) => { let c = std::mem::take(cs); *v = VD::Frag(c); strip(v) } VD::El(_, _, cs) | VD::Frag(cs) | VD::NoHydrate(cs) => cs.iter_mut().for_each(strip), VD::DView(_, alts) | VD::DView0(_, alts) => alts.iter_mut().for_each(|a| a.iter_mut().for_each(strip)), _ => {} } } vds.iter_mut().for_each(strip); }
+        if rng.chance(1, 4) {
+            for _ in 0..1 + rng.below(2) { let at = rng.below(vds.len() + 1); vds.insert(at, VD::OnCleanup(rng.below(nsig), rng.below(7) as u32)); }
+        }
         let store: Vec<u32> = (0..nsig + 1).map(|_| rng.below(4) as u32).collect();
         let nw = rng.below(6);
         let ws: Vec<String> = (0..nw).map(|_| format!("{}={}", rng.below(nsig), rng.below(7))).collect();
